@@ -153,30 +153,48 @@ def check_ref_split(ctx, cfg, key):
 
 
 def check_remove_wrappers(ctx, cfg):
+    """remove / swap_remove (the trait-default bodies, or an override in the GenericArray impl if one exists):
+    the unchecked body - and any neutralisation of self (ManuallyDrop::new / forget / raw read) - is reached only under idx < N,
+    and every panic exit is taken under idx >= N with self still the ordinary by-value parameter."""
     rule = "C09.A"
     n = 0
+    db = ctx.db(cfg)
     for name, unchecked in (("remove", "remove_unchecked"), ("swap_remove", "swap_remove_unchecked")):
-        key = "trait Remove::" + name
+        okey = "<GenericArray<$0,$1> as Remove<$0,$1>>::" + name
+        key = okey if db.get(okey) is not None else "trait Remove::" + name
         b = ctx.body(cfg, key, rule)
         if b is None:
             continue
         a = ctx.analysis(cfg, key)
-        N = a.tenv.length({"k": "param", "n": b["generics"][2]["n"]})
-        cs = [c for c in a.calls if c.fn == "sequence::Remove::" + unchecked or (c.fn.endswith("::" + unchecked))]
-        if len(cs) != 1:
-            ctx.ob(rule, key, REFUTED if cs else MISSING, "expected one call of %s, found %d" % (unchecked, len(cs)), at=b["at"], cfg=cfg)
-            continue
-        c = cs[0]
-        idx = a.as_poly(c.args[1])
-        ok = c.args[0] == ARG1 and idx == Poly.atom(("arg", 2)) and a.prove(c.facts, "Lt", idx, N)
-        # every panic is reached only under idx >= N, and before self is touched (self is still the by-value parameter)
+        if key == okey:
+            N = selfN(a)
+        else:
+            N = a.tenv.length({"k": "param", "n": b["generics"][2]["n"]})
+        idx = Poly.atom(("arg", 2))
+        problems = []
+        # sites that neutralise self or hand it to the unchecked body
+        neut = [c for c in a.calls if c.fn.endswith("::" + unchecked) or c.fn.startswith("core::mem::ManuallyDrop::<T>::new") or c.fn in ("core::mem::forget", "core::ptr::read", "core::mem::transmute_copy")]
+        if not neut:
+            problems.append("no call of %s and no inline implementation found" % unchecked)
+        for c in neut:
+            if not a.prove(c.facts, "Lt", idx, N):
+                problems.append("%s is reached under %s, i.e. without idx < N being established (an out-of-range index then panics or misbehaves with self already neutralised)" % (c.fn.split("::")[-1], fstr(c.facts)))
+        uc = [c for c in a.calls if c.fn.endswith("::" + unchecked)]
+        for c in uc:
+            if not (c.args[0] == ARG1 and a.as_poly(c.args[1]) == idx):
+                problems.append("%s is not called with (self, idx) unchanged" % unchecked)
         pan = [p for p in a.calls if p.fn.startswith("core::panicking::")]
-        okp = bool(pan) and all(a.prove(p.facts, "Ge", Poly.atom(("arg", 2)), N) for p in pan)
-        untouched = not any(x.fn.startswith("core::mem::ManuallyDrop") or x.fn in ("core::mem::forget", "core::ptr::read") for x in a.calls)
-        okret = all(r["val"] == c.ret for r in a.returns)
-        ctx.ob(rule, key, ok and okp and untouched and okret,
-               "%s(self, idx) reached under %s (required idx < N); panic exits under idx >= N: %s; self not neutralised before the check: %s; result returned: %s" % (
-                   unchecked, fstr(c.facts), okp, untouched, okret), at=b["at"], cfg=cfg)
+        if not pan:
+            # a bounds-checked std call may play the role of the assert only if it happens before self is neutralised - covered by the rule above
+            if not any(a.prove(c.facts, "Lt", idx, N) for c in neut):
+                problems.append("no bounds check dominates the neutralisation of self")
+        for p in pan:
+            if not a.prove(p.facts, "Ge", idx, N):
+                problems.append("a panic exit is reachable under %s (required idx >= N)" % fstr(p.facts))
+        if uc and not all(r["val"] == uc[0].ret for r in a.returns):
+            problems.append("the result of %s is not returned unchanged" % unchecked)
+        ctx.ob(rule, key, not problems, "; ".join(problems) if problems else
+               "%s: bounds check idx < N dominates every neutralisation of self / the call of %s; panic exits only under idx >= N with self untouched" % (key.split("::")[-1], unchecked), at=b["at"], cfg=cfg)
         n += 1
     return n
 
